@@ -37,7 +37,9 @@ DOCS = [
 PROBES = DOCS[:4] + ["*a* [r]\n\n[r]: /x\n", "```js\nq\n```\n",
                      # nesting-sensitive probes: constructs just below / at the maxNesting cut of the three configurations (20, 100, 20)
                      "[" * 17 + "a" + "](u)" * 17 + "\n", "> " * 18 + "q\n", "*a **b *c **d *e **f *g* f** e* d** c* b** a*\n",
-                     "[t " + "[" * 12 + "x" + "]" * 12 + "](u) ![" * 3 + "a" + "](v)" * 3 + "\n", "- " * 9 + "deep\n"]
+                     "[t " + "[" * 12 + "x" + "]" * 12 + "](u) ![" * 3 + "a" + "](v)" * 3 + "\n", "- " * 9 + "deep\n",
+                     # (only different under a linkifier) bare URLs with emphasis-like characters, after and inside links and raw <a>
+                     "see http://host/x*y*z and www.a.bc/_q_ then [l](u) http://h.i/j*k* <a href=x>http://in.a/*b*</a> m@n.op\n"]
 
 
 def _opt(name, value):
@@ -133,7 +135,7 @@ def floors(tier):
     q = tier == "quick"
     f = {"crash_points.fresh": 5000 if q else 60000, "crash_points.sequence": 3000 if q else 20000, "raised_inside_library": 8000, "fault.silent_invocation": 300,
          "fault.in_container": 300, "fault.in_skiptoken": 100, "reset_rules.paths": 2000, "hammer.sequences": 100, "reset_rules.nested": 500, "reset_rules.entry_with_empty_chain": 500, "reset_rules.exception_propagated": 1000, "post_state_compared": 8000,
-         "post_fault_reconfigurations": 8000, "same_document_reparsed": 8000, "reset_rules.deferred_entry": 300, "crash_points.big_document": 30, "post_fault_reconfigurations.effective": 4000}
+         "post_fault_reconfigurations": 8000, "same_document_reparsed": 8000, "reset_rules.deferred_entry": 300, "reset_rules.active_list_mutated": 300, "crash_points.big_document": 30, "post_fault_reconfigurations.effective": 4000}
     for c in CALLBACKS:
         f["cb." + c] = 50
     for e in EXC:
@@ -148,6 +150,10 @@ def build(conf_name="cmx"):
         md = MarkdownIt("commonmark").enable(["table", "strikethrough"])
     elif conf_name == "jst":
         md = MarkdownIt("js-default", {"typographer": True})
+    elif conf_name == "gfm":
+        from vf.conf import StubLinkify
+        md = MarkdownIt("gfm-like")
+        md.linkify = StubLinkify()
     else:
         md = MarkdownIt("zero").enable(["emphasis", "link", "image", "fence", "backticks"])
     ctl = {"target": None, "ctr": collections.Counter(), "fired": None, "where": {}}
@@ -352,6 +358,15 @@ def reset_case(ctx, case):
                 md.disable(act[1], True)
             elif k == "enable":
                 md.enable(act[1], True)
+            elif k == "mutate_active":
+                # edit the lists that get_active_rules() hands out, then apply them (the snapshot taken on entry must be a copy)
+                act_now = md.get_active_rules()
+                for ch in ("inline", "block"):
+                    if act[1] in act_now[ch]:
+                        act_now[ch].remove(act[1])
+                        (md.inline if ch == "inline" else md.block).ruler.enableOnly(act_now[ch])
+                act_now["core"].append("vf_bogus")
+                ctx.count("reset_rules.active_list_mutated")
             elif k == "add":
                 md.inline.ruler.push(f"added{depth}_{len(md.inline.ruler.get_all_rules())}", lambda s, silent: False)
             elif k == "parse":
@@ -465,8 +480,10 @@ def gen_script(rng, depth=0):
             acts.append(["disable", rng.sample(names, rng.randint(1, 3))])
         elif r < 0.45:
             acts.append(["enable", rng.sample(names, rng.randint(1, 2))])
-        elif r < 0.52:
+        elif r < 0.49:
             acts.append(["add"])
+        elif r < 0.52:
+            acts.append(["mutate_active", rng.choice(["emphasis", "link", "list", "backticks", "heading"])])
         elif r < 0.6:
             acts.append(["parse"])
         elif r < 0.74 and depth < 3:
@@ -500,8 +517,10 @@ def run(ctx):
         docs.append(gen.strip_surrogates(gen.gram(rng, nblocks=rng.randint(1, 3)))[:400])
     idx = 0
     for di, doc in enumerate(docs):
-        for conf in ("cmx", "jst", "zero"):
+        for conf in ("cmx", "jst", "zero", "gfm"):
             for api in ("render", "parse", "parseInline", "renderInline"):
+                if conf == "gfm" and (api == "parse" or (ctx.quick and di >= 4)):
+                    continue
                 if api != "render" and di % 2:
                     continue
                 try:
